@@ -34,6 +34,7 @@ pub fn run(id: &str) -> Result<String, String> {
         "F77" => f77(),
         "F78" => f78(),
         "F80" => f80(),
+        "F82" => f82(),
         _ => Err(format!("unknown witness {id}")),
     }
 }
@@ -908,4 +909,33 @@ fn f80() -> Result<String, String> {
     let mut bad = Vec::new();
     for cap in [1usize, 2, 3, 7, 8] { let (r, i) = (read(Some(cap)), index(Some(cap))); if r != want_r { bad.push(format!("records() through a BufReader of capacity {cap}: {r:?} instead of {want_r:?}")); } if i != want_i { bad.push(format!("the indexer through a BufReader of capacity {cap}: {i} instead of {want_i}")); } }
     if bad.is_empty() { Ok("\"cases\":10".into()) } else { Err(format!("a FASTA with '>' inside a sequence line (>sq0 / AC>GT) reads differently depending on the window size of the source: {}", bad[..bad.len().min(3)].join("; "))) }
+}
+
+/// F82 (known): the elements of a String array (INFO Number=.) are joined with ',' WITHOUT percent-encoding by the BCF writer, while the lazy
+/// BCF reader percent-decodes every element (and the eager one does not): ["a,b", "c"] comes back as three values, ["a%3Bb"] as "a;b" lazily.
+fn f82() -> Result<String, String> {
+    use noodles_vcf as vcf;
+    use vcf::variant::io::Write as _;
+    use vcf::variant::record_buf::info::field::{value::Array, Value};
+    let hdr = "##fileformat=VCFv4.3\n##INFO=<ID=SA,Number=.,Type=String,Description=\"x\">\n##contig=<ID=sq0,length=1000>\n#CHROM\tPOS\tID\tREF\tALT\tQUAL\tFILTER\tINFO\n";
+    let header = vcf::io::Reader::new(hdr.as_bytes()).read_header().map_err(|e| format!("header: {e}"))?;
+    let mut bad = Vec::new();
+    for vals in [vec!["a,b", "c"], vec!["a%3Bb", "c"], vec!["x", "y"]] {
+        let want: Vec<Option<String>> = vals.iter().map(|v| Some(v.to_string())).collect();
+        let rec = vcf::variant::RecordBuf::builder().set_reference_sequence_name("sq0").set_variant_start(noodles_core::Position::MIN).set_reference_bases("A")
+            .set_info([(String::from("SA"), Some(Value::Array(Array::String(want.clone()))))].into_iter().collect()).build();
+        let mut w = noodles_bcf::io::Writer::from(Vec::new()); w.write_header(&header).map_err(|e| format!("write_header: {e}"))?; w.write_variant_record(&header, &rec).map_err(|e| format!("write: {e}"))?;
+        let data = w.get_ref().clone();
+        // eager
+        let mut rd = noodles_bcf::io::Reader::from(&data[..]); let h = rd.read_header().map_err(|e| format!("read_header: {e}"))?;
+        let mut back = vcf::variant::RecordBuf::default(); rd.read_record_buf(&h, &mut back).map_err(|e| format!("read_record_buf: {e}"))?;
+        let eager = match back.info().get("SA") { Some(Some(Value::Array(Array::String(v)))) => v.clone(), o => vec![Some(format!("{o:?}"))] };
+        // lazy
+        let mut rd = noodles_bcf::io::Reader::from(&data[..]); let h = rd.read_header().map_err(|e| format!("read_header: {e}"))?;
+        let mut lrec = noodles_bcf::Record::default(); rd.read_record(&mut lrec).map_err(|e| format!("read_record: {e}"))?;
+        let lazy = match vcf::variant::RecordBuf::try_from_variant_record(&h, &lrec) { Ok(b) => match b.info().get("SA") { Some(Some(Value::Array(Array::String(v)))) => v.clone(), o => vec![Some(format!("{o:?}"))] }, Err(e) => vec![Some(format!("ERROR {e}"))] };
+        if eager != want { bad.push(format!("{vals:?} reads back eagerly as {eager:?}")); }
+        if lazy != want { bad.push(format!("{vals:?} reads back lazily as {lazy:?}")); }
+    }
+    if bad.is_empty() { Ok("\"cases\":3".into()) } else { Err(format!("a String array INFO value does not survive BCF when an element holds ',' or a percent sequence: {}", bad.join("; "))) }
 }
